@@ -172,7 +172,7 @@ class GBackend(Backend, backend_name="vtsym"):
         if not (G.same(a.shape[1], b.shape[0]) or bool(G.SInt.lift(a.shape[1]) == b.shape[0])):
             raise ValueError("solve: Input operand 1 has a mismatch in its core dimension 0")
         x = G.opaque_tensor("SOL", G.axis_sizes(b), G._result_dtype(a, b))
-        G.LA_LOG.append(dict(op="solve", A=a, B=b, X=x))
+        G.LA_LOG.append(dict(op="solve", A=a, B=b, X=x, at=G.caller_snapshot()))
         return x
 
     def lstsq(self, a, b, rcond=None):
@@ -181,13 +181,52 @@ class GBackend(Backend, backend_name="vtsym"):
         if not (G.same(a.shape[0], b.shape[0]) or bool(G.SInt.lift(a.shape[0]) == b.shape[0])):
             raise ValueError("Incompatible dimensions")
         x = G.opaque_tensor("LSQ", [G.axis_sizes(a)[1]] + G.axis_sizes(b)[1:], G._result_dtype(a, b))
-        G.LA_LOG.append(dict(op="lstsq", A=a, B=b, X=x))
+        G.LA_LOG.append(dict(op="lstsq", A=a, B=b, X=x, at=G.caller_snapshot()))
         res = G.opaque_tensor("LSQRES", list(b.shape[1:]) if b.ndim > 1 else [], "float64")
         return x, res, None, None
+
+    @staticmethod
+    def check_random_state(seed):
+        """Symbolic runs: the generator returns arbitrary (opaque) tensors, so 'random initialisation' means 'any value'."""
+        return SymRng(seed)
 
     def __getattr__(self, name):
         # Backend defines stubs raising NotImplementedError for everything; reaching here means truly unknown
         raise EngineError(f"backend primitive {name!r} has no contract in E1-generic")
+
+
+class SymRng:
+    def __init__(self, seed=None):
+        self.seed = seed
+        self.draws = []
+
+    def _draw(self, kind, shape):
+        shape = [shape] if isinstance(shape, (builtins.int, SInt)) else list(shape)
+        self.draws.append((kind, tuple(shape)))
+        return G.opaque_tensor("RND", shape, "float64")
+
+    def randn(self, *shape):
+        return self._draw("randn", shape)
+
+    def random_sample(self, size=None):
+        return self._draw("random_sample", size if size is not None else [])
+
+    def rand(self, *shape):
+        return self._draw("rand", shape)
+
+    def standard_normal(self, size=None):
+        return self._draw("standard_normal", size if size is not None else [])
+
+    def uniform(self, low=0.0, high=1.0, size=None):
+        return self._draw("uniform", size if size is not None else [])
+
+    def randint(self, low, high=None, size=None, dtype=int):
+        shape = [size] if isinstance(size, (builtins.int, SInt)) else list(size or [])
+        self.draws.append(("randint", tuple(shape)))
+        return G.opaque_tensor("RNDI", shape, "int64")
+
+    def choice(self, *a, **k):
+        raise EngineError("rng.choice in E1-generic")
 
 
 # every Backend stub that we did not override must become "undecided", not NotImplementedError
